@@ -602,7 +602,7 @@ func (tr *Trans) assumeTyped(v Val, st *State, rc Term) {
 		case "ref":
 			// slice: 4 comps
 			off, ln, cp := v.C[i+1], v.C[i+2], v.C[i+3]
-			tr.e.assume(rc, and(lt(x, getWM()), le(intT(0), off), le(intT(0), ln), le(ln, cp),
+			tr.e.assume(rc, and(lt(tr.g.rootOf(tr.e, x), getWM()), le(intT(0), off), le(intT(0), ln), le(ln, cp),
 				implies(eq(x, intT(0)), and(eq(cp, intT(0)), eq(off, intT(0)))),
 				le(cp, bigT("4611686018427387904"))))
 		case "off", "len", "cap", "array", "opaque":
@@ -616,7 +616,7 @@ func (tr *Trans) assumeTyped(v Val, st *State, rc Term) {
 					tr.e.assume(rc, and(ge(tr.g.strLen(tr.e, x), intT(0))))
 				}
 			case *types.Pointer, *types.Map, *types.Chan:
-				tr.e.assume(rc, and(lt(x, getWM())))
+				tr.e.assume(rc, and(lt(tr.g.rootOf(tr.e, x), getWM())))
 			case *types.Interface:
 				// type-system fact: the dynamic type of an interface value implements the interface
 				for _, tn := range sortedKeys(tr.g.specs.TypeLits) {
